@@ -151,6 +151,13 @@ def run(pid, tier):
             rep.violation('driver-failure', dict(mode='walk', rc=d['rc'], stderr=d['stderr'].decode(errors='replace')[-2000:]))
         else:
             validate(rep, pid, w + '/walk.ndjson', 'walk-cap%d' % cap)
+    # a C89 build of the library has no stdbool: scpi_bool_t is an unsigned char there (summaries of bits 8..15)
+    exe89 = lib.build('drv_status', ['drv_status.c'], config='c89')
+    d = lib.run_driver(exe89, ['walk', lib.seed() * 11 + 3, steps // 3, 2, w + '/walk89.ndjson'])
+    if d['rc'] != 0:
+        rep.violation('driver-failure', dict(mode='walk', build='c89', rc=d['rc'], stderr=d['stderr'].decode(errors='replace')[-2000:]))
+    else:
+        validate(rep, pid, w + '/walk89.ndjson', 'walk-c89')
     if pid == 'C12':
         d = lib.run_driver(exe, ['codes', w + '/codes.ndjson'])
         if d['rc'] != 0:
